@@ -156,11 +156,21 @@ def area_history(rng, z, n_cases):
         qs = [rnd_q(rng) for _ in range(3)]
         rs = [rnd_rec(rng) for _ in range(4)]
         ops = []
-        for _ in range(rng.randint(1, 10)):
-            k = rng.choice(["add", "add", "sup", "sup", "exp", "clr"] if rng.random() < 0.3 else ["add", "add", "sup", "sup", "exp"])
-            now = rng.choice([0, 1, 500, 999, 1000, 1001, 1998, 1999, 2000, 2001, 3000])
-            known = rng.sample(range(4), rng.randint(0, 3))
-            ops.append((k, rng.randrange(3), now, known))
+        # boundary gaps: every numeric constant of const.py, +-1 (an edit of the constant a function reads must show)
+        cpool = sorted({int(v) for v in vars(z.const).values() if isinstance(v, (int, float)) and not isinstance(v, bool) and 0 < v <= 20000})
+        gaps = [c + d for c in cpool for d in (-1, 0, 1)]
+        last_add, last_q, last_known = 1000, 0, []
+        for _ in range(rng.randint(2, 10)):
+            k = rng.choice(["add", "add", "sup", "sup", "exp", "clr"] if rng.random() < 0.3 else ["add", "add", "sup", "sup", "sup", "exp"])
+            if k == "add":
+                now = last_add + rng.choice([0, 1, 500, 3000])
+                qi, known = rng.randrange(3), rng.sample(range(4), rng.randint(0, 3))
+                last_add, last_q, last_known = now, qi, known
+            else:
+                now = last_add + rng.choice(gaps)
+                qi = last_q if rng.random() < 0.8 else rng.randrange(3)
+                known = sorted(set(last_known) | set(rng.sample(range(4), rng.randint(0, 2)))) if rng.random() < 0.8 else rng.sample(range(4), rng.randint(0, 3))
+            ops.append((k, qi, now, known))
         # python
         h = QH()
         pq = [q_py(d, z) for d in qs]
@@ -497,7 +507,105 @@ def area_queue(rng, z, n_cases):
     return "\n\n".join(defs), exprs, exp
 
 
-AREAS = {"History": area_history, "Registry": area_registry, "Cache": area_cache, "Dns": area_dns, "Queue": area_queue}
+def area_sched(rng, z, n_cases):
+    import types as pytypes
+
+    import zeroconf._services.browser as bm
+
+    S = "GenFn.Sched.QueryScheduler"
+    defs, exprs, exp = [], [], []
+    for ci in range(n_cases):
+        delay = rng.choice([1000, 10000])
+        lo, hi = 20, 120
+        ptrs = []
+        for j in range(4):
+            alias = rng.choice(["a", "A", "b", "c"]) + "._http._tcp.local."
+            ptrs.append(("p", "_http._tcp.local.", 1, rng.choice([10, 60, 120, 4500]), 1000 + 137 * j + rng.randrange(50), alias))
+        ops = []
+        t = 1000
+        k0 = ["start"] if rng.random() < 0.9 else []
+        for _ in range(rng.randint(2, 12)):
+            t += rng.choice([1, 20, 333, 1000, 4000, 7500, 45000, 90000])
+            ops.append((rng.choice(["ptr", "ptr", "ptr", "cancel", "fs", "fs", "fr", "fr", "fr", "stop"]), t, rng.randrange(4), rng.randint(lo, hi), rng.random() < 0.1))
+        ops = [(k, 1000, 0, rng.randint(lo, hi), False) for k in k0] + ops
+        effects = []
+
+        class H:
+            def cancel(self):
+                effects.append("cancel")
+
+        class Loop:
+            def call_later(self, d, cb):
+                effects.append("later%d:%s" % (round(d * 1000), cb.__name__))
+                return H()
+
+            def call_at(self, w, cb):
+                effects.append("at%d:%s" % (round(w * 1000), cb.__name__))
+                return H()
+
+        class Zc:
+            done = False
+
+        class QS(bm.QueryScheduler):
+            def async_send_ready_queries(self, first, now, tys):
+                effects.append("send%s:%d:%s" % ("T" if first else "F", int(now), ",".join(sorted(tys))))
+
+        zc = Zc()
+        q = QS(zc, {"_http._tcp.local."}, None, 5353, True, delay, (lo, hi), None)
+        pr = [rec_py(d, z) for d in ptrs]
+        out = []
+        L = ["def schedCase%d : String := Id.run do" % ci, "  let ps : List Rec := [%s]" % ", ".join(rec_lean(d) for d in ptrs),
+             "  let mut out : List String := []", "  let mut q := %s.init () [\"_http._tcp.local.\"] none 5353 true %d (%d, %d) none 0" % (S, delay, lo, hi)]
+        failed = False
+
+        def step(call):
+            return ["  match %s with" % call, "  | .ok p => do q := p.1; out := out ++ [showSEff p.2]",
+                    "  | .error e => return \" \".intercalate (out ++ [\"!\" ++ e.name])"]
+
+        for k, now, i, draw, done in ops:
+            del effects[:]
+            zc.done = done
+            bm.current_time_millis = lambda now=now: float(now)
+            try:
+                if k == "start":
+                    bm.random = pytypes.SimpleNamespace(randint=lambda a, b, d=draw: d if (a, b) == (lo, hi) else -1)
+                    L += ["  let r := %s.start q () (fun a b => if a == %d && b == %d then %d else -1)" % (S, lo, hi, draw), "  q := r.1", "  out := out ++ [showSEff r.2]"]
+                    q.start(Loop())
+                elif k == "ptr":
+                    L += step("%s.reschedule_ptr_first_refresh L q ps[%d]!" % (S, i))
+                    q.reschedule_ptr_first_refresh(pr[i])
+                elif k == "cancel":
+                    L += ["  match %s.cancel_ptr_refresh L q ps[%d]! with" % (S, i), "  | .ok p => do q := p; out := out ++ [\"\"]",
+                          "  | .error e => return \" \".intercalate (out ++ [\"!\" ++ e.name])"]
+                    q.cancel_ptr_refresh(pr[i])
+                elif k == "fs":
+                    L += step("%s.process_startup_queries q %s %d" % (S, "true" if done else "false", now))
+                    q._process_startup_queries()
+                elif k == "fr":
+                    L += step("%s.process_ready_types q %s %d" % (S, "true" if done else "false", now))
+                    q._process_ready_types()
+                else:
+                    L += step("%s.stop q" % S)
+                    q.stop()
+                out.append(";".join(effects))
+            except Exception as ex:  # noqa: BLE001
+                out.append("!" + exc_name(ex))
+                failed = True
+                break
+        if not failed:
+            heap = sorted("%d,%s,%s,%d,%s,%d" % (int(o.when_millis), o.alias, o.name, int(o.ttl), "T" if o.cancelled else "F", int(o.expire_time_millis)) for o in q._query_heap)
+            d = sorted("%s=%d" % (a, int(o.when_millis)) for a, o in q._next_scheduled_for_alias.items())
+            out.append("H:%s D:%s n=%d r=%s m=%d e=%d" % ("|".join(heap), "|".join(d), q._startup_queries_sent, "N" if q._next_run is None else "S",
+                                                       int(q._next_run_millis), int(q._earliest_next_run_millis)))
+            L.append("  out := out ++ [schedDump q]")
+        L.append("  return \" \".intercalate out")
+        exp.append(" ".join(out))
+        defs.append("\n".join(L))
+        exprs.append("schedCase%d" % ci)
+    return "\n\n".join(defs), exprs, exp
+
+
+AREAS = {"Sched": area_sched, "History": area_history, "Registry": area_registry, "Cache": area_cache, "Dns": area_dns, "Queue": area_queue}
 
 
 QUEUE_PRELUDE = r'''
@@ -505,7 +613,23 @@ def showEff (l : List GenFn.Queue.QEffect) : String :=
   ";".intercalate (l.map (fun e => match e with | .callAt t => "at" ++ toString t | .send a => "send" ++ showAns a))
 '''
 
-AREA_SOURCES = {"Queue": ["_handlers/multicast_outgoing_queue.py", "_handlers/answers.py", "_utils/time.py"], "History": ["_history.py", "_dns.py"], "Registry": ["_services/registry.py", "_services/info.py"], "Cache": ["_cache.py", "_dns.py"],
+SCHED_PRELUDE = r'''
+def showSEff (l : List GenFn.Sched.SEffect) : String :=
+  ";".intercalate (l.map (fun e => match e with
+    | .callLater d cb => "later" ++ toString d ++ ":" ++ (match cb with | .startup => "_process_startup_queries" | .ready => "_process_ready_types")
+    | .callAt w cb => "at" ++ toString w ++ ":" ++ (match cb with | .startup => "_process_startup_queries" | .ready => "_process_ready_types")
+    | .cancel => "cancel"
+    | .send f n t => "send" ++ showB f ++ ":" ++ toString n ++ ":" ++ ",".intercalate (t.toArray.qsort (· < ·)).toList))
+def schedObj (q : GenFn.Sched.QueryScheduler) (i : Nat) : GenFn.Sched.ScheduledPTRQuery := PyStore.getD q.store i default
+def schedDump (q : GenFn.Sched.QueryScheduler) : String :=
+  let heap := (q.query_heap.map (fun i => let o := schedObj q i
+    toString o.when_millis ++ "," ++ o.alias ++ "," ++ o.name ++ "," ++ toString o.ttl ++ "," ++ showB o.cancelled ++ "," ++ toString o.expire_time_millis)).toArray.qsort (· < ·)
+  let d := (q.next_scheduled_for_alias.map (fun p => p.1 ++ "=" ++ toString (schedObj q p.2).when_millis)).toArray.qsort (· < ·)
+  "H:" ++ "|".intercalate heap.toList ++ " D:" ++ "|".intercalate d.toList ++ " n=" ++ toString q.startup_queries_sent ++
+    " r=" ++ (if q.next_run.isNone then "N" else "S") ++ " m=" ++ toString q.next_run_millis ++ " e=" ++ toString q.earliest_next_run_millis
+'''
+
+AREA_SOURCES = {"Sched": ["_services/browser.py", "_dns.py", "_utils/time.py"], "Queue": ["_handlers/multicast_outgoing_queue.py", "_handlers/answers.py", "_utils/time.py"], "History": ["_history.py", "_dns.py"], "Registry": ["_services/registry.py", "_services/info.py"], "Cache": ["_cache.py", "_dns.py"],
                 "Dns": ["_dns.py"]}
 
 
@@ -524,7 +648,7 @@ def emit(repo, areas):
     for area, f in AREAS.items():
         if area not in areas or not (gen_dir / (area + ".lean")).exists():
             continue
-        rng = random.Random("20260925-" + area)
+        rng = random.Random("%s-%s" % (os.environ.get("VERIF_SEED", "0") or "0", area))
         d, e, x = f(rng, z, int(os.environ.get("FN_SELFTEST_CASES", "40")))
         imports.append("import Zc.GenFn.%s" % area)
         defs.append(d)
@@ -532,6 +656,7 @@ def emit(repo, areas):
         expected += x
         owner += [area] * len(e)
     lean = "\n".join(imports) + "\nimport Zc.Py.Model\nimport Zc.Model.Registry\n" + PRELUDE + (QUEUE_PRELUDE if "import Zc.GenFn.Queue" in imports else "") + \
+        (SCHED_PRELUDE if "import Zc.GenFn.Sched" in imports else "") + \
         "\n" + "\n\n".join(defs) + "\n\n" + \
         "\n".join('#eval IO.println ("=== " ++ %s)' % e for e in exprs) + "\n"
     json.dump({"lean": lean, "expected": expected, "owner": owner}, sys.stdout)
@@ -539,12 +664,14 @@ def emit(repo, areas):
 
 def area_key(lean_dir, repo, area):
     h = hashlib.sha1()
+    h.update((os.environ.get("VERIF_SEED", "0") or "0").encode())
     for q in [lean_dir / "Zc" / "GenFn" / (area + ".lean")] + sorted((lean_dir / "Zc" / "Py").glob("*.lean")):
         h.update(q.read_bytes())
     src = pathlib.Path(repo) / "src" / "zeroconf"
-    for rel in AREA_SOURCES.get(area, []):
+    # every module of the library: what a translated function imports (constants, helpers, base classes) decides what the real code does
+    for q in sorted(src.rglob("*.py")):
         try:
-            h.update((src / rel).read_bytes())
+            h.update(q.read_bytes())
         except OSError:
             pass
     h.update(pathlib.Path(__file__).read_bytes())
@@ -556,6 +683,13 @@ def run(lean_dir, repo, skip=()):
     `skip`: areas whose translation failed (their GenFn file is the committed one, not this tree's)"""
     lean_dir = pathlib.Path(lean_dir)
     run.bad_areas = {}
+    # regression probes of the translator itself (review r3): fail-closed cases and evaluation-order shapes
+    sys.path.insert(0, str(HERE / "fn_probes"))
+    import run as fn_probes_run
+
+    bad = fn_probes_run.run_all()
+    if bad:
+        return False, "translator probes: " + "; ".join(bad)[:400], 0
     okfile = lean_dir / ".fn_selftest.ok"
     try:
         cache = json.loads(okfile.read_text())
